@@ -7,6 +7,12 @@
 //!          9 arr![e0; LEN] (LEN a const item, bare path)   10 box_arr![e0; LEN]
 //!          11 const B: Box<_> = box_arr![c0,..]   12 arr![e0; {LEN}]   13 box_arr![e0; {LEN}]
 //!   etype  0 u32   1 String   2 Ck (Clone logs)   3 Zs (zero-sized Copy)
+//!   via    8: every element carries its own `unsafe { .. }` block around a call of an unsafe fn, and the program
+//!             is compiled with #![deny(unused_unsafe)] and uncapped lints (as for the native literal: accepted)
+//!   via    9: every element calls an unsafe fn WITHOUT an unsafe block (as for the native literal: rejected,
+//!             whenever there is an element expression at all)
+//!   via   10: box_arr![x; N] inside a fn generic over the type-level length N (form 7 only: the expansion may not
+//!             put N into an item, which cannot name the parameters of the enclosing fn)
 //!   via    7: elements borrowing from temporaries of their own expression (u32 behind a reference)
 //!   via    1 here: every case is a generated program compiled with rustc against the rlib cargo
 //!          built from the current crate tree (so a case that does not compile is an
@@ -115,6 +121,31 @@ fn case_body(c: &[i128]) -> String {
             _ => format!("let o = observe(1, &*box_arr![{}; {count}]); o", r(0)),
         };
     }
+    // via 10: the type-level length is a generic parameter of the enclosing fn
+    if via == 10 {
+        return format!(
+            "fn gen<N: generic_array::ArrayLength>() -> Vec<i128> {{ let a: Box<GenericArray<{t}, N>> = box_arr![{x}; N]; observe(1, &a) }} gen::<{nty}>()"
+        );
+    }
+    // via 8 / 9: unsafe hygiene of the expansion around the caller's element expressions
+    if via == 8 || via == 9 {
+        let items = "unsafe fn ue(i: i128) -> u32 { e::<u32>(i) } const unsafe fn cu(i: i128) -> u32 { (3 + 7 * i) as u32 }";
+        let w = |f: &str, i: usize| if via == 8 { format!("unsafe {{ {f}({i}) }}") } else { format!("{f}({i})") };
+        let ul = (0..count).map(|i| w("ue", i)).collect::<Vec<_>>().join(", ");
+        let cl = (0..count).map(|i| w("cu", i)).collect::<Vec<_>>().join(", ");
+        let (ux, ucx) = (w("ue", 0), w("cu", 0));
+        return match form {
+            0 => format!("{items} let a: GenericArray<u32, _> = arr![{ul}{commas}]; observe(0, &a)"),
+            1 => format!("{items} const A: GenericArray<u32, {nty}> = arr![{cl}{commas}]; observe(0, &A)"),
+            2 => format!("{items} let a: GenericArray<u32, _> = arr![{ux}; {nty}]; observe(0, &a)"),
+            3 => format!("{items} let a: GenericArray<u32, _> = arr![{ux}; {count}]; observe(0, &a)"),
+            4 => format!("{items} const A: GenericArray<u32, {nty}> = arr![{ucx}; {nty}]; observe(0, &A)"),
+            5 => format!("{items} const A: GenericArray<u32, {nty}> = arr![{ucx}; {count}]; observe(0, &A)"),
+            6 => format!("{items} let a: Box<GenericArray<u32, _>> = box_arr![{ul}{commas}]; observe(1, &a)"),
+            7 => format!("{items} let a: Box<GenericArray<u32, _>> = box_arr![{ux}; {nty}]; observe(1, &a)"),
+            _ => format!("{items} let a: Box<GenericArray<u32, _>> = box_arr![{ux}; {count}]; observe(1, &a)"),
+        };
+    }
     match form {
         0 => format!("let a: GenericArray<{t}, _> = arr![{}{commas}]; observe(0, &a)", list()),
         1 => format!("const A: GenericArray<{t}, {nty}> = arr![{}{commas}]; observe(0, &A)", clist()),
@@ -135,6 +166,9 @@ fn case_body(c: &[i128]) -> String {
 
 fn program(cases: &[Vec<i128>]) -> String {
     let mut s = String::from("#![allow(warnings)]\n#![recursion_limit = \"128\"]\n");
+    if cases.iter().any(|c| c.len() > 4 && c[4] == 8) {
+        s.push_str("#![deny(unused_unsafe)]\n");
+    }
     s.push_str(PRELUDE);
     s.push('\n');
     for (i, c) in cases.iter().enumerate() {
@@ -182,8 +216,12 @@ fn compile(t: &Tool, name: &str, src: &str) -> Result<PathBuf, String> {
     let rs = t.dir.join(format!("{}.rs", name));
     let out = t.dir.join(name);
     std::fs::write(&rs, src).expect("write program");
+    // programs that turn a lint into an error are compiled with uncapped lints
+    let lints: &[&str] = if src.contains("#![deny(") { &[] } else { &["-A", "warnings", "--cap-lints", "allow"] };
     let r = Command::new("rustc")
-        .args(["--edition", "2021", "-A", "warnings", "-C", "debuginfo=0", "--cap-lints", "allow", "-C"])
+        .args(["--edition", "2021", "-C", "debuginfo=0"])
+        .args(lints)
+        .arg("-C")
         // same optimisation level as the rlib the harness itself was built against
         .arg(if cfg!(debug_assertions) { "opt-level=0" } else { "opt-level=2" })
         .arg("--extern")
@@ -256,6 +294,9 @@ fn probably_rejected(c: &[i128]) -> bool {
     let (form, count, et) = (c[0], c[1], c[2]);
     let in_table = count <= 1024 || [2047, 2048, 3600, 4095, 4096].contains(&count);
     let copy = et == 0 || et == 3;
+    if c.len() > 4 && (c[4] == 8 || c[4] == 9) {
+        return true; // a program of its own: its lint levels differ / it is expected to be rejected
+    }
     match form {
         9 | 10 | 11 => true,
         2 | 4 => !copy && count > 1,
@@ -359,6 +400,20 @@ fn generated_cases(thorough: bool) -> Vec<Vec<i128>> {
                 continue;
             }
             v.push(vec![form, n, 0, 0, 7]);
+        }
+    }
+    // unsafe hygiene: elements with their own unsafe block under deny(unused_unsafe); elements that need one and have none
+    for n in [0i128, 1, 3, 16] {
+        for form in 0..9i128 {
+            for via in [8i128, 9] {
+                v.push(vec![form, n, 0, if form == 0 || form == 6 { n % 2 } else { 0 }, via]);
+            }
+        }
+    }
+    // box_arr! with a generic type-level length
+    for n in [0i128, 1, 3, 16, 100] {
+        for et in 0..4i128 {
+            v.push(vec![7, n, et, 0, 10]);
         }
     }
     // box_arr! is not usable in a const
